@@ -310,3 +310,16 @@ MUTANTS += [
 
     def _getitem_impl(cls, item):""")]),
 ]
+
+MUTANTS += [
+    # ---- C07
+    dict(id="c07-fn-called-twice", property="C07", edits=[(D, "                out = fn(*args, **kwargs)\n\n                if full_signature", "                fn(*args, **kwargs)\n                out = fn(*args, **kwargs)\n\n                if full_signature")]),
+    # (c07-pass-bound-args: equivalent mutant - annotations/defaults are evaluated at def time in the enclosing scope, bound.args carries the same objects)
+    dict(id="c07-drop-wraps", property="C07", edits=[(D, "            @ft.wraps(fn)\n            def wrapped_fn(*args, **kwargs):\n                __tracebackhide__ = True\n\n                if (", "            def wrapped_fn(*args, **kwargs):\n                __tracebackhide__ = True\n\n                if (")]),
+    # (c07-gensym-ignores-param-names: equivalent mutant - annotations/defaults are evaluated at def time in the enclosing scope, bound.args carries the same objects)
+    dict(id="c07-bind-after-push-wrong-error", property="C07", edits=[(D, "                bound = param_signature.bind(*args, **kwargs)\n                bound.apply_defaults()\n\n                memos = push_shape_memo(bound.arguments)", "                try:\n                    bound = param_signature.bind(*args, **kwargs)\n                except TypeError as e:\n                    raise TypeCheckError(str(e)) from None\n                bound.apply_defaults()\n\n                memos = push_shape_memo(bound.arguments)")]),
+    dict(id="c07-result-copied", property="C07", edits=[(D, "                return out\n\n            wrapped_fn_holder = []", "                return out if not isinstance(out, list) else list(out)\n\n            wrapped_fn_holder = []")]),
+    dict(id="c07-kwonly-star-missing-when-varpos-absent", property="C07", edits=[(D, "        assert len(varpos) == 0\n        if len(key) > 0:\n            argstr_pieces.append(\"*\")", "        assert len(varpos) == 0\n        if len(key) > 1:\n            argstr_pieces.append(\"*\")")]),
+    dict(id="c07-classmethod-becomes-function", property="C07", edits=[(D, "        return classmethod(jaxtyped(fn.__func__, typechecker=typechecker))", "        return staticmethod(jaxtyped(fn.__func__, typechecker=typechecker))")]),
+    dict(id="c07-lambda-syntaxerror", property="C07", edits=[(D, "    if name.isidentifier() and not keyword.iskeyword(name):\n        def_name = name\n    else:\n        def_name = _gensym(param_names, prefix=\"fn\")", "    def_name = name")]),
+]
